@@ -52,6 +52,21 @@ def compare(rule, crate, sm, body, det, label=None, subst=None):
     for (ps, must, may, ln) in det.reports:
         spec_must[ps] = B.Or(spec_must.get(ps, B.F), must)
         spec_may[ps] = B.Or(spec_may.get(ps, B.F), may)
+    # or-patterns (`A(loc, ..) | B(loc, ..) => insert(loc)`) report  base↓{A|B}.k : split into one report per alternative
+    import re as _re2
+    alt_re = _re2.compile(r"^(.*)↓\{([A-Za-z0-9_|]+)\}(.*)$")
+    for ps in list(code):
+        m = alt_re.match(ps)
+        if m and ps not in spec_must:
+            f = code.pop(ps)
+            w = sites.pop(ps, None)
+            for v in m.group(2).split("|"):
+                compact = "%s↓{%s}" % (m.group(1), m.group(2))
+                single = "%s↓%s" % (m.group(1), v)
+                fv = B.And(B.atom("is(%s; %s)" % (m.group(1), v)), B.rename(f, lambda a: a.replace(compact, single)))
+                pv = single + m.group(3)
+                code[pv] = B.Or(code.get(pv, B.F), fv)
+                sites.setdefault(pv, w)
     # bound element variables ([*#k]) are compared modulo a renaming: try the bijections between the code's and the spec's numbers
     import itertools, re as _re
     tag_re = _re.compile(r"\[\*#(\d+|\?)\]")
